@@ -531,6 +531,8 @@ func QueueCheck(w *engine.World) {
 		q := chain[key]
 		if q.Due < h {
 			w.Violate("C13", "queue/random/stale-entry", "random request %s queued for height %d is still in the queue after block %d", q.ID, q.Due, h)
+			// C18: "... and then disappears from the pending queue"
+			w.Violate("C18", "queue/left-behind", "random request %s, due at height %d, is still in the pending queue after block %d", q.ID, q.Due, h)
 		}
 	}
 	if m == nil {
